@@ -82,3 +82,33 @@ def handleJwe (toks : List String) (tbl : Table) : Option String :=
   | _ => none
 
 end Driver
+
+namespace Driver
+
+def handleJwt (toks : List String) (tbl : Table) : Option String :=
+  let P := oraclePrims tbl
+  match toks with
+  | ["jwt.dec-jws", allowed, keyarg, tok] => do
+    let al ← readOptStrList allowed
+    let key ← readKeyArg keyarg
+    let t ← hexToBytes tok
+    some (showRes ((jwtDecodeJws P env keyEnv (constructRegistry al) t key).map fun (h, c) =>
+      showJVal h ++ " " ++ showJVal (.obj c)))
+  | ["jwt.dec-jwe", allowed, keyarg, tok] => do
+    let al ← readOptStrList allowed
+    let key ← readKeyArg keyarg
+    let t ← hexToBytes tok
+    some (showRes ((jwtDecodeJwe P env keyEnv keyTables zipConsts (mkJweRegistry al true [] true true) t key).map fun (h, c) =>
+      showJVal (.obj h) ++ " " ++ showJVal (.obj c)))
+  | ["jwt.enc-jws", allowed, keyarg, hdr, claims] => do
+    let al ← readOptStrList allowed
+    let key ← readKeyArg keyarg
+    let h ← match ← readJVal hdr with | .obj d => some d | _ => none
+    let c ← match ← readJVal claims with | .obj d => some d | _ => none
+    some (showRes ((jwtEncodeJws P env keyEnv (constructRegistry al) h c key).map fun (t, h') =>
+      bytesToHex t ++ " " ++ showJVal h'))
+  | ["jwt.numericdate", y, mo, d, hh, mi, ss] => do
+    some ("ok " ++ toString (numericDate ⟨← y.toInt?, ← mo.toNat?, ← d.toNat?, ← hh.toNat?, ← mi.toNat?, ← ss.toNat?⟩))
+  | _ => none
+
+end Driver
